@@ -480,6 +480,9 @@ func (e *c02Env) symEffect(in ssa.Instruction) {
 			k = -k
 		}
 		b := e.symOf(other)
+		if n := b.off + k; n > 8 || n < -8 {
+			return // keep the state space finite on loops with a counter: far offsets are just "unknown"
+		}
 		e.sym[x] = c02Sym{b.base, b.off + k}
 	case *ssa.Convert:
 		delete(e.sym, x)
@@ -866,6 +869,7 @@ type c02XOpts struct {
 	Visit    func(in ssa.Instruction, env *c02Env) c02Action
 	EdgeStop func(from, to *ssa.BasicBlock, env *c02Env) bool
 	NoCalls  bool // do not step into callees
+	MaxDepth int  // how many helper levels to step into (default 2)
 }
 
 type c02Frame struct {
@@ -944,7 +948,7 @@ func c02ExploreX(start *ssa.BasicBlock, startIdx int, env *c02Env, o *c02XOpts) 
 		it := work[len(work)-1]
 		work = work[:len(work)-1]
 		steps++
-		if steps > 200000 {
+		if steps > 60000 {
 			return hits, false
 		}
 		var sk []string
@@ -975,7 +979,11 @@ func c02ExploreX(start *ssa.BasicBlock, startIdx int, env *c02Env, o *c02XOpts) 
 			}
 			switch x := in.(type) {
 			case *ssa.Call:
-				if o.NoCalls || len(it.stack) >= 2 {
+				maxDepth := 2
+				if o.MaxDepth > 0 {
+					maxDepth = o.MaxDepth
+				}
+				if o.NoCalls || len(it.stack) >= maxDepth {
 					continue
 				}
 				h := c02Followable(x, home)
@@ -1403,6 +1411,9 @@ func c02OpaqueFlagX(cond ssa.Value, home *ssa.Function) bool {
 		if c02IsBool(x.X.Type()) {
 			return c02OpaqueFlagX(x.X, home) || c02OpaqueFlagX(x.Y, home)
 		}
+		if isNilConst(x.X) || isNilConst(x.Y) {
+			return false // "is it nil" is a test of data, wherever the value is kept
+		}
 		for _, op := range []ssa.Value{x.X, x.Y} {
 			if isLoad, ok := tracked(op); isLoad && !ok {
 				return true
@@ -1590,4 +1601,18 @@ func c02PureCarrier(v ssa.Value, allowed []ssa.Value) bool {
 		return false
 	}
 	return walk(v)
+}
+
+// assumeNil / assumeNonNil record the fact "v == nil" is true / false in the
+// canonical form every later comparison of v with nil is looked up under.
+func (e *c02Env) assumeNilness(v ssa.Value, isNil bool) {
+	if e.facts == nil {
+		e.facts = map[string]c02ExprFact{}
+	}
+	nilName := "const nil:" + v.Type().String()
+	a, b := nilName, v.Name()
+	if a > b {
+		a, b = b, a
+	}
+	e.facts["eq|"+a+"|"+b] = c02ExprFact{val: isNil, ops: []ssa.Value{v}}
 }
